@@ -38,7 +38,7 @@ def generate(rng, tier):
     kinds = ["bool", "int", "float", "str", "date", "datetime", "obool", "lstr"]
     spec = []
     for j in range(rng.randint(1, 5)):
-        kind = rng.choice(kinds + (["uint64"] if target == "arrow" else []) + (["int32", "float32"] if rng.random() < 0.15 else []))
+        kind = rng.choice(kinds + (["uint64"] if target == "arrow" else []) + (["timedelta"] if target in ("arrow", "pandas") else []) + (["int32", "float32"] if rng.random() < 0.15 else []))
         na = rng.choice(["none", "some", "first", "first", "last", "all"])
         hostile = 0.3
         vals = gen.gen_values(rng, kind, n, na, rng.choice(["few", "distinct"]), hostile)
